@@ -1,9 +1,209 @@
 import Driver.Proto
+import Driver.C01
+import ScrapliModel.Interactive
+import ScrapliModel.Generated.C12
 namespace Driver.C12
-open Scrapli
+open Driver.C01
+open Scrapli Scrapli.Chan Scrapli.Inter
 
-/-- line-protocol handler for property C12 (arguments after the leading `c12` token) -/
+namespace C12
+
+def pat (i : Nat) : Bytes → Bool :=
+  match Gen.C12.patterns[i]? with
+  | some re => fun w => Rx.isMatch re w
+  | none => fun _ => false
+
+def parseIdx (s : String) : Option (List Nat) :=
+  if s == "." then some [] else (s.splitOn ",").mapM String.toNat?
+
+/-- prompt field: `d` = the channel's default prompt pattern, otherwise an index list = the
+    alternation of those table patterns (the network driver's joined level pattern) -/
+def mkCfg12 (depth : Nat) (exact : Bool) (ret : Bytes) (prompt : String) : Option Cfg :=
+  let base := mkCfg depth exact true ret
+  if prompt == "d" then some base
+  else (parseIdx prompt).map fun is =>
+    { base with promptP := fun w => is.any fun i => pat i w, stripP := fun b => b }
+
+def showTrace (t : List Ev) : String :=
+  if t.isEmpty then "." else
+  ",".intercalate (t.map fun
+    | .deliver b => "d" ++ toHex b
+    | .write b false => "w" ++ toHex b
+    | .write b true => "r" ++ toHex b)
+
+def exactAt12 (P : Bytes → Bool) (S : Bytes) : Bool :=
+  P S && (List.range S.length).all fun k => !P (S.take k)
+
+/-- every read of the run ended exactly at the end of what had been emitted: its predicate held of
+    no proper byte prefix of what it consumed (so no segmentation could have ended it earlier) -/
+def segExact (cfg : Cfg) (complete : List (Bytes → Bool)) (e : Event) (g : Seg) : Bool :=
+  let echoOk :=
+    if echoAwaited e && !echoImmediate cfg e.input then
+      exactAt12 (echoPred cfg e.input) g.echo.flatten
+    else true
+  let prompts := complete ++ [e.resp.getD cfg.promptP]
+  echoOk && g.ret.isSome && exactAt12 (anyPred prompts cfg) g.resp.flatten
+
+/-- the `WindowSound` hypothesis, evaluated on the buffers of this run -/
+def segWindowSound (cfg : Cfg) (complete : List (Bytes → Bool)) (g : Seg) : Bool :=
+  complete.all fun p => !p (window g.resp.flatten cfg.depth) || p g.resp.flatten
+
+def zipAll (cfg : Cfg) (complete : List (Bytes → Bool)) : List Event → List Seg → Bool
+  | e :: es, g :: gs => segExact cfg complete e g && zipAll cfg complete es gs
+  | _, [] => true
+  | [], _ :: _ => false
+
+/-- emitted bytes = consumed bytes: nothing of the dialogue was left in the queue -/
+def drained (q0 : List Bytes) (reacts : List (List Bytes)) (r : Run (List (List Bytes))) : Bool :=
+  let nw := (writesOf r.trace).length
+  let emitted := (q0.flatten.length) + ((reacts.take nw).map fun c => c.flatten.length).sum
+  emitted == (deliveredOf r.trace).length
+
+def normChunks (cs : List Bytes) : List Bytes := cs.map (normalizeChunk stripAnsi)
+
+def takeFields : Nat → List String → Option (List String × List String)
+  | 0, l => some ([], l)
+  | _ + 1, [] => none
+  | n + 1, x :: t => (takeFields n t).map fun (a, b) => (x :: a, b)
+
+def parseEvents : List String → Option (List Event)
+  | [] => some []
+  | i :: r :: h :: t => do
+    let input ← fromHex i
+    let resp ← if r == "-" then some none else r.toNat?.map fun k => some (pat k)
+    let rest ← parseEvents t
+    pure ({ input := input, resp := resp, hidden := s2b h } :: rest)
+  | _ => none
+
+def answer (cfg : Cfg) (dom : Bool) (ws : Bool) (r : Run (List (List Bytes))) : String :=
+  let res := match r.res with
+    | some b => s!"1 {toHex b}"
+    | none => "0 -"
+  s!"{b2s dom} {res} {showTrace r.trace} {b2s ws}"
+
+end C12
+
+namespace C12
+
+abbrev SSt := St (List (List Bytes))
+
+/-- `Channel.GetPrompt` (only used to replay what preceded the operation under test): write the
+    return, read until the prompt -/
+def getPrompt (cfg : Cfg) (s : SSt) : Run (List (List Bytes)) :=
+  let s1 := s.write scriptDev cfg.ret
+  let rr := readC (promptPred cfg) s1.q []
+  { res := if rr.1 then some rr.2.1.flatten else none, st := { s1 with q := rr.2.2 },
+    segs := [{ input := cfg.ret, hidden := false, echo := rr.2.1, ret := none, resp := [] }] }
+
+structure Acc where
+  st : SSt
+  nw : Nat          -- writes so far
+  nd : Nat          -- chunks delivered to operations so far
+  out : List String
+
+/-- what the harness observed at the transport: `eb[k]` = raw bytes the device had emitted when
+    write `k` arrived (last entry: in total), `lens` = raw size of every read chunk in order -/
+structure Obs where
+  eb : List Nat
+  lens : List Nat
+
+def Obs.deliveredRaw (o : Obs) (nd : Nat) : Nat := (o.lens.take nd).sum
+
+/-- at every write that follows a delivery (the end of a read) — and at the end of the operation
+    when `checkEnd` — everything the device had emitted so far had been consumed -/
+def drainedAt (o : Obs) (checkEnd : Bool) : List Ev → Nat → Nat → Bool → Bool
+  | [], nw, nd, afterDel => !(afterDel && checkEnd) || o.eb.getD nw 0 == o.deliveredRaw nd
+  | .deliver _ :: t, nw, nd, _ => drainedAt o checkEnd t nw (nd + 1) true
+  | .write _ _ :: t, nw, nd, afterDel =>
+    (!afterDel || o.eb.getD nw 0 == o.deliveredRaw nd) && drainedAt o checkEnd t (nw + 1) nd false
+
+def countDel : List Ev → Nat
+  | [] => 0
+  | .deliver _ :: t => countDel t + 1
+  | .write _ _ :: t => countDel t
+
+def record (o : Obs) (a : Acc) (cfg : Cfg) (r : Run (List (List Bytes))) (exactOk ws : Bool)
+    (checkEnd : Bool := true) : Acc :=
+  let dom := r.res.isSome && exactOk && drainedAt o checkEnd r.trace a.nw a.nd false
+  { st := r.st, nw := a.nw + (writesOf r.trace).length, nd := a.nd + countDel r.trace,
+    out := a.out ++ [answer cfg dom ws r] }
+
+/-- run the operations of a session one after the other on the scripted device -/
+def runOps (cfg : Cfg) (o : Obs) :
+    Nat → List String → Acc → Option Acc
+  | 0, _, _ => none
+  | _ + 1, [], a => some a
+  | fuel + 1, "gp" :: rest, a =>
+    let r := getPrompt cfg a.st
+    runOps cfg o fuel rest (record o a cfg r true true)
+  | fuel + 1, "inter" :: exact :: compl :: nev :: rest, a => do
+    let cis ← parseIdx compl
+    let n ← nev.toNat?
+    let (evf, rest') ← takeFields (3 * n) rest
+    let evs ← parseEvents evf
+    let cfg' := { cfg with exact := s2b exact }
+    let complete := cis.map pat
+    let r := sendInteractive cfg' complete scriptDev evs a.st
+    runOps cfg o fuel rest'
+      (record o a cfg r (zipAll cfg' complete evs r.segs)
+        (r.segs.all (segWindowSound cfg' complete)))
+  | fuel + 1, "esc" :: prev :: target :: escp :: auth :: cmd :: secret :: rest, a => do
+    let pi ← prev.toNat?
+    let ti ← target.toNat?
+    let cmd ← fromHex cmd
+    let secret ← fromHex secret
+    let ep : Option (Bytes → Bool) := if escp == "-" then none else escp.toNat?.map pat
+    let prevL : Level := { pattern := pat pi, escalate := [], escalateAuth := false, escalatePrompt := none }
+    let tgtL : Level := { pattern := pat ti, escalate := cmd, escalateAuth := s2b auth, escalatePrompt := ep }
+    let r := escalate cfg prevL tgtL secret scriptDev a.st
+    let authd := s2b auth && !secret.isEmpty
+    let complete := if authd then escalateComplete prevL tgtL else []
+    let evs := if authd then escalateEvents tgtL secret
+               else [{ input := cmd, resp := some (escCfg cfg).promptP, hidden := false }]
+    runOps cfg o fuel rest
+      (record o a cfg r (zipAll (escCfg cfg) complete evs r.segs)
+        (r.segs.all (segWindowSound (escCfg cfg) complete)))
+  | fuel + 1, "send" :: exact :: eager :: cmd :: rest, a => do
+    let cmd ← fromHex cmd
+    let cfg' := { cfg with exact := s2b exact, strip := false }
+    let r := sendInput cfg' (s2b eager) [] scriptDev a.st cmd
+    let g := r.segs.headD { input := [], hidden := false, echo := [], ret := none, resp := [] }
+    let echoOk := echoImmediate cfg' cmd || exactAt12 (echoPred cfg' cmd) g.echo.flatten
+    let respOk := s2b eager || exactAt12 (anyPred [cfg'.promptP] cfg') g.resp.flatten
+    -- an eager send leaves the device's answer unread by design
+    runOps cfg o fuel rest (record o a cfg r (echoOk && respOk) true (!s2b eager))
+  | _, _, _ => none
+
+end C12
+
+open C12 in
+/-- `c12 sess <depth> <ret> <prompt> <q0> <nwrites> <emitted-before list> <reaction chunks>{nwrites} <op>*` where an op is
+      `gp` | `inter <exact> <complete-idx> <nev> (<input> <resp-idx|-> <hidden>)*`
+      | `esc <prev-idx> <target-idx> <escprompt-idx|-> <auth> <cmd> <secret>` | `send <exact> <eager> <cmd>`
+    → per op `<dom> <ok> <result> <trace> <windowsound>`, joined by ` | `
+    `c12 rx <idx> <hex>` → 0/1 (table pattern on a subject) -/
 def handleC12 : List String → String
+  | "sess" :: depth :: ret :: prompt :: q0 :: nw :: eb :: rest =>
+    match depth.toNat?, fromHex ret, hexList q0, nw.toNat?, parseIdx eb with
+    | some d, some ret, some q0, some n, some eb =>
+      match mkCfg12 d false ret prompt, takeFields n rest with
+      | some cfg, some (reactf, ops) =>
+        match reactf.mapM hexList with
+        | some reacts =>
+          let obs : Obs := { eb := eb, lens := (q0 ++ reacts.flatten).map List.length }
+          let reacts := reacts.map normChunks
+          let q0 := normChunks q0
+          match runOps cfg obs (ops.length + 1) ops
+              { st := { q := q0, d := reacts }, nw := 0, nd := 0, out := [] } with
+          | some a => if a.out.isEmpty then "none" else " | ".intercalate a.out
+          | none => "bad-op"
+        | none => "bad-op"
+      | _, _ => "bad-op"
+    | _, _, _, _, _ => "bad-op"
+  | ["rx", idx, h] =>
+    match idx.toNat?, fromHex h with
+    | some i, some s => b2s (pat i s)
+    | _, _ => "bad-op"
   | _ => "bad-op"
 
 end Driver.C12
